@@ -14,8 +14,12 @@ setup-locked: gen coq build/driver
 gen:
 	@python3 tools/gen_build.py
 
+# The whole development is built with -k: a proof file that no longer compiles must only affect the
+# properties whose Props/Cxx.v depends on it (the check of a property runs `make Props/Cxx.vo`
+# strictly, see harness/lib.py); the models, which the extracted driver needs, are built strictly.
 coq: gen
-	@cd coq && coq_makefile -f _CoqProject -o Makefile.coq >/dev/null && timeout 3000 $(MAKE) --no-print-directory -f Makefile.coq -j16
+	@cd coq && coq_makefile -f _CoqProject -o Makefile.coq >/dev/null && { timeout 3000 $(MAKE) --no-print-directory -k -f Makefile.coq -j16 > ../build/coq_build.log 2>&1 || { grep -E "^(File|Error|make.*Error)" ../build/coq_build.log | head -20; true; }; }
+	@cd coq && timeout 3000 $(MAKE) --no-print-directory -f Makefile.coq -j16 $(patsubst coq/%.v,%.vo,$(MODELS))
 
 build/driver: $(MODELS) $(ENTRIES) ocaml/driver_head.ml ocaml/driver_tail.ml tools/gen_build.py | coq
 	cd build/extracted && timeout 900 coqc -Q ../../coq Mokaverif Extract.v
